@@ -15,6 +15,7 @@ import (
 	"math"
 	"math/rand"
 	"sort"
+	"strings"
 	"time"
 
 	"mosn.io/api"
@@ -40,8 +41,8 @@ func (s *scriptedSource) Seed(seed int64) {}
 func c06Draw(c *lab.Ctx) {
 	c.Rule("route rules with 1..8 weighted clusters (weights incl. 0, 1, dominant, totals power of two or not, total <= 4096); the whole draw space [0,total) is enumerated K..60 times per configuration (map iteration order changes per call); per draw the answer must be explainable by some storage order, and per cluster the number of selections over all sweeps must lie within a 1e-12 Bernstein bound of sweeps*weight; distinct = (weight vector, draw, answer)")
 	rng := c.Rand("draw")
-	nCfg := c.Pick(400, 3000)
-	K := c.Pick(6, 16)
+	nCfg := c.Pick(1500, 3000)
+	K := c.Pick(10, 16)
 	src := &scriptedSource{}
 	sr := rand.New(src)
 	// sanity of the scripted source
@@ -230,7 +231,7 @@ func c06Draw(c *lab.Ctx) {
 func c06WRR(c *lab.Ctx) {
 	c.Rule("weighted round-robin balancer over 2..8 (one third: 9..64) healthy hosts with weights 1..128 (equal, co-prime, one dominant, min/max, nearly equal with a light and a heavy host at first/middle/last position, random); L = 20*sum(w) picks (capped); for every pair (i,j) the bound must hold for every window = max-min of f(t)=N_i(t)/w_i-N_j(t)/w_j over all prefixes; distinct = weight vectors")
 	rng := c.Rand("wrr")
-	nCfg := c.Pick(300, 3000)
+	nCfg := c.Pick(1200, 3000)
 	for ci := 0; ci < nCfg; ci++ {
 		n := 2 + rng.Intn(7)
 		if rng.Intn(3) == 0 {
@@ -347,6 +348,180 @@ func c06WRR(c *lab.Ctx) {
 	}
 	c06WRRHealth(c)
 	c06WRRSlowStart(c)
+	c06WRRUpdates(c)
+}
+
+// c06Window runs L picks and judges the lag bound for every pair and every window; "" = held.
+func c06Window(lb types.LoadBalancer, addrs []string, ws []uint32, L int) string {
+	n := len(addrs)
+	idx := map[string]int{}
+	for i, a := range addrs {
+		idx[a] = i
+	}
+	cnt := make([]int, n)
+	type mm struct{ max, min float64 }
+	tr := make([][]mm, n)
+	for i := range tr {
+		tr[i] = make([]mm, n)
+	}
+	ctx := newLbCtx()
+	for t := 0; t < L; t++ {
+		h := lb.ChooseHost(ctx)
+		if h == nil {
+			return "nil-host|no host returned with all hosts healthy"
+		}
+		k, ok := idx[h.AddressString()]
+		if !ok {
+			return "foreign-host|host " + h.AddressString() + " is not in the cluster's current host set"
+		}
+		cnt[k]++
+		for i := 0; i < n; i++ {
+			for j := i + 1; j < n; j++ {
+				f := float64(cnt[i])/float64(ws[i]) - float64(cnt[j])/float64(ws[j])
+				m := &tr[i][j]
+				if f > m.max {
+					m.max = f
+				}
+				if f < m.min {
+					m.min = f
+				}
+				bound := 1/float64(ws[i]) + 1/float64(ws[j]) + 1e-9
+				if m.max-m.min > bound {
+					return fmt.Sprintf("lag-bound-exceeded|after %d picks hosts %d (w=%d) and %d (w=%d) have a window with |n_i/w_i-n_j/w_j| = %.6f > %.6f (counts %v)", t+1, i, ws[i], j, ws[j], m.max-m.min, bound, cnt)
+				}
+			}
+		}
+	}
+	return ""
+}
+
+// c06WRRUpdates: the weights that count are the ones of the cluster's CURRENT host descriptions. A cluster of the cluster manager
+// is driven through histories of host updates - replace the set, append hosts (an appended description of an address the cluster
+// already has re-describes that host: the last update wins), remove hosts - and after every step the balancer of the current
+// snapshot is judged against the weights of the current descriptions.
+func c06WRRUpdates(c *lab.Ctx) {
+	rng := c.Rand("wrr-updates")
+	cm := cluster.NewClusterManagerSingleton(nil, nil, nil)
+	nH := c.Pick(60, 400)
+	steps := 0
+	for hi := 0; hi < nH; hi++ {
+		name := fmt.Sprintf("c06-upd-%d-%d", c.Batch, hi)
+		if err := cm.AddOrUpdatePrimaryCluster(v2.Cluster{Name: name, LbType: v2.LbType(types.WeightedRoundRobin)}); err != nil {
+			c.Inconclusive("add cluster failed: " + err.Error())
+			continue
+		}
+		addr := func(i int) string { return fmt.Sprintf("10.6.%d.%d:%d", hi/200, hi%200, 100+i) }
+		weights := map[int]uint32{} // model: index -> weight of the current description
+		var order []int             // model: current members
+		newW := func() uint32 {
+			switch rng.Intn(4) {
+			case 0:
+				return uint32(1 + rng.Intn(3))
+			case 1:
+				return uint32(100 + rng.Intn(29))
+			default:
+				return uint32(1 + rng.Intn(128))
+			}
+		}
+		var hist []string
+		for si := 0; si < 4+rng.Intn(5); si++ {
+			var hs []v2.Host
+			op := rng.Intn(4)
+			if si == 0 {
+				op = 0
+			}
+			switch op {
+			case 0: // replace by 2..6 hosts
+				weights, order = map[int]uint32{}, nil
+				for _, i := range rng.Perm(8)[:2+rng.Intn(5)] {
+					w := newW()
+					weights[i] = w
+					order = append(order, i)
+					hs = append(hs, v2.Host{HostConfig: v2.HostConfig{Address: addr(i), Hostname: addr(i), Weight: w}})
+				}
+				if err := cm.UpdateClusterHosts(name, hs); err != nil {
+					c.Inconclusive("UpdateClusterHosts: " + err.Error())
+				}
+				hist = append(hist, fmt.Sprintf("replace%v", hs2w(hs)))
+			case 1, 2: // append 1..3 descriptions: new addresses and addresses the cluster already has (with a new weight)
+				for k := 1 + rng.Intn(3); k > 0; k-- {
+					i := rng.Intn(8)
+					dup := false
+					for _, h := range hs {
+						if h.Address == addr(i) {
+							dup = true
+						}
+					}
+					if dup {
+						continue
+					}
+					w := newW()
+					if _, ok := weights[i]; !ok {
+						order = append(order, i)
+					}
+					weights[i] = w
+					hs = append(hs, v2.Host{HostConfig: v2.HostConfig{Address: addr(i), Hostname: addr(i), Weight: w}})
+				}
+				if err := cm.AppendClusterHosts(name, hs); err != nil {
+					c.Inconclusive("AppendClusterHosts: " + err.Error())
+				}
+				hist = append(hist, fmt.Sprintf("append%v", hs2w(hs)))
+			default: // remove one member (keep at least two)
+				if len(order) <= 2 {
+					continue
+				}
+				k := rng.Intn(len(order))
+				i := order[k]
+				order = append(order[:k:k], order[k+1:]...)
+				delete(weights, i)
+				if err := cm.RemoveClusterHosts(name, []string{addr(i)}); err != nil {
+					c.Inconclusive("RemoveClusterHosts: " + err.Error())
+				}
+				hist = append(hist, fmt.Sprintf("remove[%d]", i))
+			}
+			if len(order) < 2 {
+				continue
+			}
+			c.Case("c06 wrr updates %s %v", name, hist)
+			snap := cm.GetClusterSnapshot(context.Background(), name)
+			if snap == nil {
+				c.Inconclusive("no snapshot")
+				continue
+			}
+			var addrs []string
+			var ws []uint32
+			sum := 0
+			for _, i := range order {
+				addrs = append(addrs, addr(i))
+				ws = append(ws, weights[i])
+				sum += int(weights[i])
+			}
+			L := 12 * sum
+			if L > 4000 {
+				L = 4000
+			}
+			steps++
+			c.Eval(1)
+			if bad := c06Window(snap.LoadBalancer(), addrs, ws, L); bad != "" {
+				p := strings.SplitN(bad, "|", 2)
+				c.Violation("wrr-bounded-lag", "C06/wrr-after-update/"+p[0]+"/last-op="+strings.SplitN(hist[len(hist)-1], "[", 2)[0],
+					fmt.Sprintf("cluster driven through %v; current descriptions: hosts %v weights %v: %s", hist, order, ws, p[1]),
+					map[string]interface{}{"history": hist, "weights": ws})
+				break
+			}
+			c.Distinct(fmt.Sprintf("wrr-update|%s|n=%d", strings.SplitN(hist[len(hist)-1], "[", 2)[0], len(order)))
+		}
+	}
+	c.Count("wrr-update-steps-judged", int64(steps))
+	c.Require("wrr update steps judged", steps > 50, fmt.Sprint(steps))
+}
+
+func hs2w(hs []v2.Host) []string {
+	var out []string
+	for _, h := range hs {
+		out = append(out, fmt.Sprintf("%s=%d", h.Address[strings.LastIndex(h.Address, ":")+1:], h.Weight))
+	}
+	return out
 }
 
 // c06WRRHealth: the same bound while the health of hosts changes WITHOUT a host-set update (health checks flip flags on the
@@ -355,7 +530,7 @@ func c06WRR(c *lab.Ctx) {
 // (unhealthy when the set was published), the last segment always has all hosts healthy again.
 func c06WRRHealth(c *lab.Ctx) {
 	rng := c.Rand("wrr-health")
-	nCfg := c.Pick(150, 1500)
+	nCfg := c.Pick(600, 1500)
 	for ci := 0; ci < nCfg; ci++ {
 		n := 2 + rng.Intn(7)
 		ws := make([]uint32, n)
@@ -486,7 +661,7 @@ func c06WRRHealth(c *lab.Ctx) {
 // the whole run (no dependence on the wall clock); hosts that never had a health transition count with their full weight.
 func c06WRRSlowStart(c *lab.Ctx) {
 	rng := c.Rand("wrr-slowstart")
-	nCfg := c.Pick(120, 1200)
+	nCfg := c.Pick(500, 1200)
 	for ci := 0; ci < nCfg; ci++ {
 		n := 2 + rng.Intn(6)
 		minPct := []float64{0.1, 0.25, 0.5}[rng.Intn(3)]
